@@ -253,6 +253,13 @@ def handleSrvMsg (st : SrvSt) (c : Nat) (m : Msg) (ops : List Op) (resps : List 
       let malformedOnly := l.all (fun e => e.1.cls != Cls.wf || e.1.ty == OpType.invalid || e.1.ni == "")
       let st := if malformedOnly && l.any (fun e => acked.any (fun a => a.1 == e.1.id))
         then st.monfail "c12" "a malformed operation was acknowledged as programmed" else st
+      -- … and each operation on its own: one that can never be valid (zero index, empty group, …),
+      -- or that names a network instance for its group that does not exist, is never acknowledged
+      let st := match l.find? (fun e => (e.1.cls != Cls.wf || e.1.ty == OpType.invalid || e.1.ni == "" ||
+            (e.1.ty != OpType.delete && (structBad e.1 || unknownGrpNI st.rs e.1))) &&
+          acked.any (fun a => a.1 == e.1.id)) with
+        | some e => st.monfail "c12" s!"malformed operation {e.1.id} ({showKey e.1.key} in {e.1.ni}) was acknowledged as programmed"
+        | none => st
       if allRejected then { st with expectUnchanged := some "c04" }
       else if malformedOnly then { st with expectUnchanged := some "c12" }
       else st
